@@ -357,6 +357,7 @@ pub enum AliasSyntaxError {
     ExpectedArrow       (AliasToken),
     UnknownGroup        (AliasToken),
     UnknownIPA          (AliasToken),
+    ToneTooBig          (AliasToken),
     DiacriticDoesNotMeetPreReqsFeat(AliasPosition, AliasPosition, String, bool),
     DiacriticDoesNotMeetPreReqsNode(AliasPosition, AliasPosition, String, bool),
     UnexpectedEol(AliasToken, char),
@@ -396,6 +397,7 @@ impl ASCAError for AliasSyntaxError {
             Self::ExpectedArrow       (token) => format!("Expected '>', '->' or '=>', but received '{}' @ {}.", token.value, token.position),
             Self::UnknownGroup        (token) => format!("Unknown grouping '{}'. Known groupings are (C)onsonant, (O)bstruent, (S)onorant, (P)losive, (F)ricative, (L)iquid, (N)asal, (G)lide, and (V)owel @ {}.", token.value, token.position),
             Self::UnknownIPA          (token) => format!("Could not get value of IPA '{}' @ {}.", token.value, token.position),
+            Self::ToneTooBig          (_)     => "A tone modifier cannot be more than 4 digits long".to_string(),
             Self::DiacriticDoesNotMeetPreReqsFeat(.., t, pos) |
             Self::DiacriticDoesNotMeetPreReqsNode(.., t, pos) => {
                 format!("Segment does not have prerequisite properties to have this diacritic. Must be [{}{}]", if *pos { '+' } else { '-' }, t) 
@@ -443,6 +445,7 @@ impl ASCAError for AliasSyntaxError {
             Self::ExpectedArrow       (token) |
             Self::UnknownGroup        (token) |
             Self::UnknownIPA          (token) |
+            Self::ToneTooBig          (token) |
             Self::UnexpectedEol       (token, _) => (
                 " ".repeat(token.position.start) + &"^".repeat(token.position.end-token.position.start) + "\n", 
                 token.position.kind,
